@@ -224,6 +224,7 @@ class Interp:
         self._stack: list = []
         self.final_env = None
         self.loop_envs = {}          # loop node -> (env at head, env at end of body)
+        self.snapshots: dict = {}    # depth-0 Assign stmt -> env just before it
         self.bad_attrs: list = []    # (fi, node, base value, attr): ndarray-kinded receiver without that attribute
 
     # ------------------------------------------------------------------ entry
@@ -400,6 +401,8 @@ class Interp:
         st.live = False
 
     def s_Assign(self, s, st, fi, depth):
+        if depth == 0:
+            self.snapshots[s] = dict(st.env)
         v = self.eval(s.value, st, fi, depth)
         for t in s.targets:
             self.assign(t, v, st, fi, depth, s)
